@@ -35,6 +35,8 @@ def scn_from_json(txt: str) -> eng.Scn:
             s.acts = [tuple(a[:5]) + (list(a[5]),) for a in v]
         elif k == "ops":
             s.ops = [tuple(o) for o in v]
+        elif k == "extra_events":
+            s.extra_events = {int(a): b for a, b in v.items()}
         else:
             setattr(s, k, v)
     return s
